@@ -208,7 +208,11 @@ func newProbeWorld(kind, set string, settleMs int) (*probeWorld, error) {
 		w.rec = &recorder{}
 		sctx, cancel := context.WithCancel(ctx)
 		w.cancel = cancel
-		go mcp.VerifServeStdio(sctx, srv, pr, w.rec)
+		go func() {
+			err := mcp.VerifServeStdio(sctx, srv, pr, w.rec)
+			// a server that has stopped serving no longer reads: writes to it fail instead of blocking for ever
+			pr.CloseWithError(fmt.Errorf("the stdio server stopped serving: %v", err))
+		}()
 		fmt.Fprintf(pw, "%s\n", peer.InitRequest("init"))
 		dl := time.Now().Add(3 * time.Second)
 		for !w.rec.contains("serverInfo") {
@@ -310,7 +314,11 @@ func (w *probeWorld) send(it probeItem) (o probeObs) {
 			return ls[:len(ls)-1]
 		}
 		before := len(lines())
-		w.pw.Write(append(append([]byte{}, body...), '\n'))
+		if _, err := w.pw.Write(append(append([]byte{}, body...), '\n')); err != nil {
+			o.Err = err.Error()
+			o.Status = -1
+			return
+		}
 		o.Frames = w.newFrames(lines, before, it.Expect)
 		o.Status = -1
 		return
